@@ -4,7 +4,7 @@ coq/gen/ob/, so that a failing obligation names its site.  Certificates (polynom
 proposed here and CHECKED by Coq (`field`, `interval`); nothing computed here is trusted."""
 import os, sys
 from fractions import Fraction as Fr
-import pyk2coq, sites, polyalg
+import pyk2coq, sites, polyalg, pyinst
 from polyalg import P, to_poly, NotPoly
 
 HEADER = ("From Coq Require Import Reals List Lra ZArith.\nFrom Coquelicot Require Import Coquelicot.\nFrom Interval Require Import Tactic.\n"
@@ -133,6 +133,30 @@ def generate(repo):
     for i, (key, (lc, ids)) in enumerate(sorted(locs.items())):
         fn, txt, meta = const_loc_obligation(i, lc, ids)
         files[fn] = txt; metas.append(meta)
+    # closures over instance state that tools/pyinst.py translates (heavy CC): args[0] = lambda in (0,1)
+    for dotted, cname, meth, res in pyinst.inst_kernels(repo):
+        key = "%s.%s.%s" % (dotted.split("coefficient_functions.")[-1], cname, meth)
+        if isinstance(res, tuple):
+            problems.append(dict(site=key, why="instance closure no longer translatable: " + res[1]))
+            continue
+        if res["sing"] is None and res["loc"] is None:
+            continue
+        if res["sing"] is None:
+            if pyk2coq.atoms(res["loc"]) & {"z"}:
+                problems.append(dict(site=key, why="local part depends on x without a singular part"))
+            continue
+        if res["loc"] is None:
+            problems.append(dict(site=key, why="singular part without local part"))
+            continue
+        name = "WFI_" + key.replace(".", "_")
+        sid, lid = pyinst.inst_ident(dotted, cname, meth, "sing"), pyinst.inst_ident(dotted, cname, meth, "loc")
+        txt = (HEADER.replace("From Yad Require Import Expr KTactics.", "From Coq Require Import Psatz.\nFrom Yad Require Import Expr KTactics.\nFrom YadGen Require Import InstKernels.")
+               + "(* %s: closure over instance state, args[0] = lambda = 1/(1 + m2/Q2) *)\n" % key
+               + "Theorem wf : forall sp, special_ok sp -> forall l x, 0 < l < 1 -> 0 < x < 1 ->\n"
+               + "  is_derive (fun x => eval sp %s x [l]) x (- eval sp %s x [l]).\n" % (lid, sid)
+               + "Proof. intros sp Hsp l x Hl Hx. k_derive_inst sp Hsp %s %s l x Hl Hx. Qed.\nPrint Assumptions wf.\n" % (lid, sid))
+        files[name + ".v"] = txt
+        metas.append(dict(name=name, kind="exact-instance", sing=key + ":sing", loc=key + ":loc", sites=[key]))
     closures = [dict(site=s.ident, parts={p: (s.parts[p]["name"] if s.parts[p] else None) for p in sites.PARTS})
                 for s in ss if s.kind == "rsl" and ((s.parts["sing"] and s.parts["sing"]["kind"] == "closure") or
                                                     (s.parts["loc"] and s.parts["loc"]["kind"] == "closure"))]
